@@ -39,18 +39,35 @@ NEEDS_B = {
  "C18": ("C18", "TokioIo::poll_write_vectored falls back to per-slice poll_write and keeps going after a short write", "vectored write with >=2 slices on a non-vectored inner writer that accepts only part of a slice that is not the last"),
 }
 
+NEEDS_C = {
+ "C06": ("C06", "Pool::checkout restarts the key-to-token table whenever the pool tracks no idle connection, waiter or attempt", "origin A's connection has been idle once, is checked out again and in flight; a checkout for another origin arrives (it is issued A's token); A's released connection is then delivered to / popped by the other origin"),
+ "C08": ("C08 (second clause)", "Rewind::poll_read falls through to the inner read after copying the prefix and returns its Pending, losing the prefix bytes", "HTTP/1 request whose first fragment is <=24 bytes with the next fragment not yet sent when the handler first reads"),
+ "C10": ("C10", "the first error is recorded only in the final drain loop; failures seen in the stagger loop are dropped", "initial concurrency below the number of candidates, a candidate failing while another is queued, all candidates failing with distinguishable errors"),
+ "C11": ("C11", "join_next only returns the first failure; later failures do not start the next queued candidate", ">=2 failures, the second while candidates are still queued and another attempt is running, well before stagger expiry (or no stagger)"),
+ "C12": ("C12", "TlsTransport::call compares the scheme with Scheme::HTTPS only; wss requests take the plain arm", "TLS configured and a wss:// request"),
+ "C13": ("C13", "get_non_default_port treats 443 as default for every scheme", "HTTP/1 connection, scheme http/ws with explicit port 443 and no caller-supplied Host: Host header loses the port"),
+ "C16": ("C16", "IpVersion::from_binding rewritten as an Option chain with the wrong order: both local addresses bound gives V4", "both local_address_ipv4 and local_address_ipv6 configured, address list with both families (only visible through TcpTransport, not through the sorting routine)"),
+ "C17": ("C17", "check_http1_request applies origin_form before authority_form for CONNECT with scheme https", "CONNECT request with an https:// URI through Http1ChecksLayer on an HTTP/1 connection: unreachable! in the caller's task"),
+ "C19": ("C19", "TimeoutFuture::new builds its timer with sleep_until(Instant::now() + timeout)", "a timeout of about i64::MAX seconds or more (Duration::MAX, u64::MAX s): Instant + Duration overflows and Timeout::call panics"),
+ "C20": ("C20", "ValidateSNI compares the whole authority (host:port) with the server name", "a Host header / :authority carrying an explicit port"),
+}
+
 import sys
 ROUND = sys.argv[1] if len(sys.argv) > 1 else ""
 if ROUND == "b":
     NEEDS = NEEDS_B
+SEEDROOT = '/tmp/seed'
+if ROUND == "c":
+    NEEDS = NEEDS_C
+    SEEDROOT = '/tmp/seed3'
 confirm = {}
-for f in (glob.glob('/tmp/seed/r2_confirm*.log') if ROUND == 'b' else glob.glob('/tmp/seed/confirm_*.log') + glob.glob('/tmp/seed/confirm_single_*.log')):
+for f in ([SEEDROOT + '/confirm.log'] if ROUND == 'c' else glob.glob('/tmp/seed/r2_confirm*.log') if ROUND == 'b' else glob.glob('/tmp/seed/confirm_*.log') + glob.glob('/tmp/seed/confirm_single_*.log')):
     for l in open(f):
         m = re.match(r'CONFIRM (C\d+): suite (with|without) change \(incl\. demo\): (.*)', l)
         if m:
             confirm.setdefault(m.group(1), {})[m.group(2)] = m.group(3).strip()
 evals = {}
-for f in (sorted(glob.glob('/tmp/seed/r2_eval*.log')) if ROUND == 'b' else sorted(glob.glob('/tmp/seed/eval_*.log'))):
+for f in ([SEEDROOT + '/eval.log'] if ROUND == 'c' else sorted(glob.glob('/tmp/seed/r2_eval*.log')) if ROUND == 'b' else sorted(glob.glob('/tmp/seed/eval_*.log'))):
     for l in open(f):
         m = re.match(r'(C\d+)\.out/patch\.diff: caught by:(.*)\| machinery:(.*)\| silent:(.*)', l)
         if m:
@@ -58,7 +75,7 @@ for f in (sorted(glob.glob('/tmp/seed/r2_eval*.log')) if ROUND == 'b' else sorte
 
 rows = []
 for sid, (prop, change, needs) in sorted(NEEDS.items()):
-    out = f'/tmp/seed/{sid}.out'
+    out = f'{SEEDROOT}/{sid}.out'
     if not os.path.exists(f'{out}/patch.diff'):
         continue
     dst = f'/verif/seeded/{sid.lower()}{ROUND}'
@@ -76,7 +93,7 @@ for sid, (prop, change, needs) in sorted(NEEDS.items()):
         "needs_to_manifest": needs,
         "written_by": "independent sub-agent given only the property text and a scratch worktree",
         "confirmed_in_scratch_worktree": {
-            "command": f"tools/confirm_seed.sh {sid}  (apply patch + demo in /tmp/seed/{sid}, cargo test --workspace --no-fail-fast --offline; then the same without the patch)",
+            "command": f"tools/confirm_seed.sh {sid}  (apply patch + demo in {SEEDROOT}/{sid}, cargo test --workspace --no-fail-fast --offline; then the same without the patch)",
             "suite_with_change_including_demo": confirm.get(sid, {}).get('with'),
             "suite_without_change_including_demo": confirm.get(sid, {}).get('without'),
             **extra,
@@ -92,7 +109,7 @@ for sid, (prop, change, needs) in sorted(NEEDS.items()):
 
 if ROUND:
     with open('/verif/seeded/README.md', 'a') as f:
-        f.write("\nRound 2 (sub-agents were told which kind of defect already existed for the property and asked for a different one):\n\n| seed | aimed at | change | needs | caught by (quick tier) |\n|---|---|---|---|---|\n")
+        f.write(("\nRound 3 (properties that had one seed so far; the known idea was named and had to be avoided):\n\n|" if ROUND == "c" else "\nRound 2 (sub-agents were told which kind of defect already existed for the property and asked for a different one):\n\n|") + " seed | aimed at | change | needs | caught by (quick tier) |\n|---|---|---|---|---|\n")
         for sid, prop, change, needs, caught in rows:
             f.write(f"| {sid.lower()} | {prop} | {change} | {needs} | {' '.join(caught) if caught else '—'} |\n")
     print("kept", len(rows)); sys.exit(0)
